@@ -154,6 +154,102 @@ func Run(tier string) int {
 		}
 		rec(nil)
 	}
+	// degenerate sub-expressions in context: for every pair (P, Q) of atoms of the full alphabet whose
+	// conjunction is a contradiction or whose disjunction is a tautology on the universe (computed by the
+	// reference evaluator), the pair is combined with a third atom X in the shapes in which a simplifier
+	// has to carry "matches nothing" / "matches everything" through OR, AND and NOT
+	{
+		type pr struct{ p, q ref.AtomDef }
+		var contra, tauto []pr
+		res := map[string]*binaryregexp.Regexp{}
+		for i, p := range alphabet {
+			for _, q := range alphabet[i+1:] {
+				if p.Atom.Data != nil || q.Atom.Data != nil {
+					continue
+				}
+				gs := map[string]bool{}
+				for _, g := range p.Groups {
+					gs[g] = true
+				}
+				for _, g := range q.Groups {
+					gs[g] = true
+				}
+				var gn []string
+				for g := range gs {
+					gn = append(gn, g)
+				}
+				sort.Strings(gn)
+				allFalse, allTrue := true, true
+				for _, r := range ref.Universe(groups, gn) {
+					a, b := p.Atom.Eval(r), q.Atom.Eval(r)
+					if a && b {
+						allFalse = false
+					}
+					if !(a || b) {
+						allTrue = false
+					}
+				}
+				if allFalse {
+					contra = append(contra, pr{p, q})
+				}
+				if allTrue {
+					tauto = append(tauto, pr{p, q})
+				}
+			}
+		}
+		_ = res
+		xs := core
+		if tier != "thorough" && len(xs) > 8 {
+			xs = xs[:8]
+		}
+		addCase := func(n *ref.Node, fam string) {
+			if !n.WellDefined() {
+				return
+			}
+			if _, _, cost := ref.Shape(n, atomShape); cost > 2000 {
+				skippedExponential++
+				return
+			}
+			t := n.Text()
+			if !seenText[t] {
+				seenText[t] = true
+				cases = append(cases, caseT{n, t, nil})
+				famCounts[fam]++
+			}
+		}
+		for _, c := range contra {
+			P, Q := ref.A(c.p.Atom), ref.A(c.q.Atom)
+			for _, x := range xs {
+				if x.Atom.Data != nil {
+					continue
+				}
+				X := ref.A(x.Atom)
+				fam := "contradictory pair in context (OR/AND/NOT around it)"
+				addCase(ref.Or(X, ref.Not(ref.And(P, Q))), fam)
+				addCase(ref.And(X, ref.Not(ref.And(P, Q))), fam)
+				addCase(ref.Or(X, ref.And(P, Q)), fam)
+				addCase(ref.Not(ref.Or(X, ref.And(P, Q))), fam)
+				addCase(ref.Not(ref.And(X, ref.Not(ref.And(P, Q)))), fam)
+				addCase(ref.Or(ref.Not(ref.And(P, Q)), X), fam)
+			}
+		}
+		for _, c := range tauto {
+			P, Q := ref.A(c.p.Atom), ref.A(c.q.Atom)
+			for _, x := range xs {
+				if x.Atom.Data != nil {
+					continue
+				}
+				X := ref.A(x.Atom)
+				fam := "tautological pair in context (OR/AND/NOT around it)"
+				addCase(ref.And(X, ref.Or(P, Q)), fam)
+				addCase(ref.Or(X, ref.Not(ref.Or(P, Q))), fam)
+				addCase(ref.And(X, ref.Not(ref.Or(P, Q))), fam)
+				addCase(ref.Not(ref.And(X, ref.Or(P, Q))), fam)
+			}
+		}
+		famCounts["contradictory pairs found"] = len(contra)
+		famCounts["tautological pairs found"] = len(tauto)
+	}
 	// number filters with arithmetic over the stream's own fields: every sum of up to three signed
 	// variables plus a constant, as exact value, lower bound and upper bound, plain, negated and in
 	// conjunctions of two (the shapes the common-factor / contradiction simplification rewrites)
